@@ -626,6 +626,14 @@ Fixpoint py_eval (e : env) (fuel : nat) (i : instr) (st : pstack) {struct fuel} 
       end
   end.
 
+(* Interpreter.execute(code) on a REPL session (repl.py): the stack is copied first; on any exception the copy is
+   put back (self.stack = stack_backup), otherwise the mutated stack stays. Returns the session stack afterwards. *)
+Definition py_execute (e : env) (fuel : nat) (code : instr) (st : pstack) : pstack * poutcome :=
+  match py_eval e fuel code st with
+  | PDone st' => (st', PDone st')
+  | o => (st, o)
+  end.
+
 (* ---- observation interface for the correspondence harness ---- *)
 Inductive obs : Type :=
 | ODone (s : list pval)      (* final stack, top first *)
@@ -665,3 +673,21 @@ Definition obs_eqb (a b : obs) : bool :=
   | OOutOfFuel, OOutOfFuel => true
   | _, _ => false
   end.
+
+(* a session: several cells executed one after the other on the same Interpreter; per cell the outcome and the
+   session stack afterwards (items and the `protected` counter) *)
+Fixpoint py_session (e : env) (fuel : nat) (cells : list instr) (st : pstack) : list (obs * (list pval * nat)) :=
+  match cells with
+  | [] => []
+  | c :: r => let (st', o) := py_execute e fuel c st in
+              (obs_of o, (items st', prot st')) :: py_session e fuel r st'
+  end.
+
+Definition py_run_session (e : env) (fuel : nat) (cells : list instr) (inputs : list (ty * data)) : list (obs * (list pval * nat)) :=
+  match inputs_of inputs with
+  | Some vs => py_session e fuel cells (mkstack vs 0)
+  | None => []
+  end.
+
+Definition session_obs_eqb (a b : list (obs * (list pval * nat))) : bool :=
+  list_eqb (fun x y => obs_eqb (fst x) (fst y) && list_eqb pval_eqb (fst (snd x)) (fst (snd y)) && Nat.eqb (snd (snd x)) (snd (snd y))) a b.
